@@ -49,7 +49,7 @@ Inductive vshape :=
 | VDict (xs : list vshape)              (* the values; keys are atoms *)
 | VRec (xs : list (option vshape))      (* a nested DOCUMENT for a structure-typed position: one entry per declared field *)
 | VObj (xs : list vshape)               (* a plain object holding xs in (re-assignable) attributes *)
-| VWrapper (xs : list vshape)           (* a list/dict wrapper taken from a field of another, mutable, instance *)
+| VWrapper (xs : list vshape)           (* the live value of a list / deque / dict field of another instance (the donor): a wrapper *)
 | VInst.                                (* a Structure instance made by the caller *)
 
 Definition pyty_of (v : vshape) : pyty :=
@@ -126,14 +126,15 @@ Fixpoint pos (sv : sites) (tb : ctables) (deser oimm fimm iimm : bool) (t : aty)
   | TAny => fset_passes tb fimm (pyty_of v) && mutable_reach v
   | TArray None =>
       match v with
-      | VList xs =>
+      | VList xs | VWrapper xs =>
+          (* no item field: the wrapper is built from the value itself, which may be another instance's wrapper *)
           negb (s_array_set_wraps sv) || negb (eff_safe (s_liststruct_init sv)) ||
-          (negb (wrapper_copies tb (t_list_gate tb) (fimm || iimm) YList) && fset_passes tb fimm YImmWrapper && any_reach xs)
+          (negb (wrapper_copies tb (t_list_gate tb) (fimm || iimm) (if deser then YList else pyty_of v)) && fset_passes tb fimm YImmWrapper && any_reach xs)
       | _ => false
       end
   | TArray (Some i) =>
       match v with
-      | VList xs =>
+      | VList xs | VWrapper xs =>      (* every element goes through the item field: a new list is wrapped *)
           negb (s_array_set_wraps sv) || negb (eff_safe (s_liststruct_init sv)) ||
           (negb (wrapper_copies tb (t_list_gate tb) (fimm || iimm) YList) && fset_passes tb fimm YImmWrapper
            && existsb (fun x => pos sv tb deser oimm fimm false i x) xs)
@@ -141,7 +142,7 @@ Fixpoint pos (sv : sites) (tb : ctables) (deser oimm fimm iimm : bool) (t : aty)
       end
   | TArrayPos l =>
       match v with
-      | VList xs =>
+      | VList xs | VWrapper xs =>
           negb (s_array_set_wraps sv) || negb (eff_safe (s_liststruct_init sv)) ||
           (negb (wrapper_copies tb (t_list_gate tb) (fimm || iimm) YList) && fset_passes tb fimm YImmWrapper
            && (fix any (l : list aty) (xs : list vshape) : bool :=
@@ -153,28 +154,28 @@ Fixpoint pos (sv : sites) (tb : ctables) (deser oimm fimm iimm : bool) (t : aty)
       end
   | TDeque None =>
       match v with
-      | VDeque xs | VList xs =>
-          negb (wrapper_copies tb (t_deque_gate tb) (fimm || iimm) YDeque) && fset_passes tb fimm YImmWrapper && any_reach xs
+      | VDeque xs | VList xs | VWrapper xs =>
+          negb (wrapper_copies tb (t_deque_gate tb) (fimm || iimm) (if deser then YDeque else match v with VWrapper _ => YWrapper | _ => YDeque end)) && fset_passes tb fimm YImmWrapper && any_reach xs
       | _ => false
       end
   | TDeque (Some i) =>
       match v with
-      | VDeque xs | VList xs =>
+      | VDeque xs | VList xs | VWrapper xs =>
           negb (wrapper_copies tb (t_deque_gate tb) (fimm || iimm) YDeque) && fset_passes tb fimm YImmWrapper
           && existsb (fun x => pos sv tb deser oimm fimm false i x) xs
       | _ => false
       end
   | TMap None =>
       match v with
-      | VDict xs =>
+      | VDict xs | VWrapper xs =>
           negb (s_map_set_wraps sv) || negb (eff_safe (s_dictstruct_init sv)) ||
-          (negb (wrapper_copies tb (t_dict_gate tb) (fimm || iimm) YDict)
+          (negb (wrapper_copies tb (t_dict_gate tb) (fimm || iimm) (if deser then YDict else match v with VWrapper _ => YWrapper | _ => YDict end))
            && (t_map_custom tb || fset_passes tb fimm YImmWrapper) && any_reach xs)
       | _ => false
       end
   | TMap (Some i) =>
       match v with
-      | VDict xs =>
+      | VDict xs | VWrapper xs =>
           negb (s_map_set_wraps sv) || negb (eff_safe (s_dictstruct_init sv)) ||
           (negb (wrapper_copies tb (t_dict_gate tb) (fimm || iimm) YDict)
            && (t_map_custom tb || fset_passes tb fimm YImmWrapper)
@@ -221,25 +222,26 @@ Fixpoint pos (sv : sites) (tb : ctables) (deser oimm fimm iimm : bool) (t : aty)
   | TOpt i => pos sv tb deser oimm fimm false i v      (* AnyOf validates on a scratch structure and stores the normal form *)
   end.
 
-(* the type Structure.__setattr__ sees: for typed fields the Deserializer has built the container *)
-Fixpoint top_pyty (t : aty) (v : vshape) : pyty :=
+(* the type Structure.__setattr__ sees: a constructor argument as it is (possibly another instance's wrapper); a
+   document's containers have been rebuilt by the Deserializer *)
+Fixpoint top_pyty (deser : bool) (t : aty) (v : vshape) : pyty :=
   match t with
   | TScalar _ => YScalar
   | TAny => pyty_of v
-  | TArray _ | TArrayPos _ => YList
-  | TMap _ => YDict
+  | TArray _ | TArrayPos _ => if deser then YList else match v with VWrapper _ => YWrapper | _ => YList end
+  | TMap _ => if deser then YDict else match v with VWrapper _ => YWrapper | _ => YDict end
   | TSet _ => match v with VFrozenset _ => YFrozenset | _ => YSet end
   | TTuple _ => YTuple
-  | TDeque _ => YDeque
+  | TDeque _ => if deser then YDeque else match v with VWrapper _ => YWrapper | _ => YDeque end
   | TStruct _ => YStruct
-  | TOpt i => top_pyty i v
+  | TOpt i => top_pyty deser i v
   end.
 
 Definition retains (sv : sites) (tb : ctables) (own : owner) (deser : bool) (t : aty) (v : vshape) : bool :=
   match own with
   | OwnPlain => pos sv tb deser false false false t v
   | OwnImmStruct =>
-      passes (t_setattr tb) (t_setattr_copies tb) (top_pyty t v) && pos sv tb deser true false true t v
+      passes (t_setattr tb) (t_setattr_copies tb) (top_pyty deser t v) && pos sv tb deser true false true t v
   | OwnImmField => pos sv tb deser true true false t v
   end.
 
@@ -248,8 +250,8 @@ Fixpoint shape_ok (deser : bool) (t : aty) (v : vshape) {struct t} : bool :=
   match t with
   | TScalar _ => match v with VAtom => true | _ => false end
   | TAny => true
-  | TArray None => match v with VList _ => true | _ => false end
-  | TArray (Some i) => match v with VList xs => forallb (fun x => shape_ok deser i x) xs | _ => false end
+  | TArray None => match v with VList _ | VWrapper _ => true | _ => false end
+  | TArray (Some i) => match v with VList xs | VWrapper xs => forallb (fun x => shape_ok deser i x) xs | _ => false end
   | TArrayPos l | TTuple l =>
       let all := fix all (l : list aty) (xs : list vshape) : bool :=
                    match l, xs with
@@ -258,20 +260,21 @@ Fixpoint shape_ok (deser : bool) (t : aty) (v : vshape) {struct t} : bool :=
                    | _, _ => false
                    end in
       match t, v with
-      | TArrayPos _, VList xs => all l xs
+      | TArrayPos _, VList xs | TArrayPos _, VWrapper xs => all l xs
       | TTuple _, VTuple xs => negb deser && all l xs
       | TTuple _, VList xs => deser && all l xs
       | _, _ => false
       end
-  | TDeque None => match v with VDeque _ => negb deser | VList _ => deser | _ => false end
+  | TDeque None => match v with VDeque _ => negb deser | VList _ => deser | VWrapper _ => true | _ => false end
   | TDeque (Some i) =>
       match v with
       | VDeque xs => negb deser && forallb (fun x => shape_ok deser i x) xs
       | VList xs => deser && forallb (fun x => shape_ok deser i x) xs
+      | VWrapper xs => forallb (fun x => shape_ok deser i x) xs
       | _ => false
       end
-  | TMap None => match v with VDict _ => true | _ => false end
-  | TMap (Some i) => match v with VDict xs => forallb (fun x => shape_ok deser i x) xs | _ => false end
+  | TMap None => match v with VDict _ | VWrapper _ => true | _ => false end
+  | TMap (Some i) => match v with VDict xs | VWrapper xs => forallb (fun x => shape_ok deser i x) xs | _ => false end
   | TSet _ => match v with VSet _ | VFrozenset _ => negb deser | VList _ => deser | _ => false end
   | TStruct l =>
       match v with
@@ -317,7 +320,7 @@ Definition sites_intake_ok (sv : sites) : bool :=
 (* nothing mutable gets through the gates of a field declared immutable *)
 Definition mixin_ok (tb : ctables) : bool :=
   t_mixin_copies tb && negb (in_table (t_mixin tb) YList) && negb (in_table (t_mixin tb) YDeque)
-  && negb (in_table (t_mixin tb) YDict).
+  && negb (in_table (t_mixin tb) YDict) && negb (in_table (t_mixin tb) YWrapper).
 
 Definition field_gates_ok (tb : ctables) : bool :=
   t_set_copies tb && atomic_table (t_set tb) && mixin_ok tb
